@@ -9,9 +9,11 @@
 
    Oracles: clock i = the i-th reading of time.time() inside download (reading 0 fixes the
    deadline, reading i is taken after chunk i has arrived); more i = the body has an
-   (i+1)-th chunk (an endless body: always true).  The caller passes
-   timeout = timeout_ms / 1000, so `time.time() > deadline` is
-   timeout_ms < 1000 * (clock i - clock 0)  in exact arithmetic.
+   (i+1)-th chunk (an endless body: always true).  `timeout` is what the caller wants the
+   download to be bounded by, in the caller's units; the caller passes timeout / unit to
+   download() (unit = 1: same units as the clock; unit = 1000: the pinned
+   _unwrap_stream, which divides by 1000), so `time.time() > deadline` is
+   timeout < unit * (clock i - clock 0)  in exact arithmetic.
    The loop has explicit fuel; an endless body whose clock never passes the deadline is
    the outcome DlOutOfFuel. *)
 From Coq Require Import ZArith List Bool.
@@ -24,12 +26,13 @@ Inductive dl_end : Type :=
 | DlOutOfFuel.
 
 Section Chunks.
+  Variable unit : Z.
   Variable clock : nat -> Z.
-  Variable timeout_ms : Z.
+  Variable timeout : Z.
   Variable more : nat -> bool.
 
   (* time.time() > deadline at reading i *)
-  Definition late (i : nat) : bool := timeout_ms <? 1000 * (clock i - clock O).
+  Definition late (i : nat) : bool := timeout <? unit * (clock i - clock O).
 
   (* i = chunks read so far; result: how the loop ended and how many chunks were read *)
   Fixpoint chunks (fuel i : nat) : dl_end * nat :=
@@ -54,8 +57,8 @@ Definition body_clock (durs : list Z) (i : nat) : Z := elapsed durs i.
 Definition body_more (durs : list Z) (i : nat) : bool := Nat.ltb i (length durs).
 
 (* did download() give up on this body because of the deadline? *)
-Definition body_slow (durs : list Z) (timeout_ms : Z) : bool :=
-  match fst (chunks (body_clock durs) timeout_ms (body_more durs) (S (length durs)) O) with
+Definition body_slow (unit : Z) (durs : list Z) (timeout : Z) : bool :=
+  match fst (chunks unit (body_clock durs) timeout (body_more durs) (S (length durs)) O) with
   | DlSlow => true
   | _ => false
   end.
